@@ -104,6 +104,13 @@ pub struct GenParams {
     /// hunks start at line numbers of 5-7 digits (0 = sometimes, 1 = always, 2 = never)
     #[serde(default)]
     pub line_number_class: u8,
+    /// percentage of body lines long enough to wrap over several rows in side-by-side mode
+    #[serde(default = "default_long_pct")]
+    pub long_line_pct: u8,
+}
+
+fn default_long_pct() -> u8 {
+    8
 }
 
 pub struct Gen<'a> {
@@ -111,6 +118,7 @@ pub struct Gen<'a> {
     next_token: usize,
     pub lines: Vec<GLine>,
     pub special_names: bool,
+    pub long_line_pct: u8,
     /// when set, every section is about this path (as in `git log -p -- path`, or the same file
     /// changed in consecutive commits)
     pub forced_name: Option<String>,
@@ -127,7 +135,7 @@ const MB_WORDS: &[&str] = &["héllo", "naïve", "日本", "语言", "λ", "→",
 
 impl<'a> Gen<'a> {
     pub fn new(rng: &'a mut Rng) -> Self {
-        Gen { rng, next_token: 0, lines: Vec::new(), special_names: true, forced_name: None }
+        Gen { rng, next_token: 0, lines: Vec::new(), special_names: true, long_line_pct: 8, forced_name: None }
     }
 
     fn token(&mut self) -> String {
@@ -168,7 +176,7 @@ impl<'a> Gen<'a> {
             None => {
                 // one line in twelve is long enough to wrap over several rows in side-by-side mode
                 // (the token stays at the start, i.e. in the first row)
-                let maxw = if self.rng.chance(1, 12) { self.rng.range(12, 45) } else { 3 };
+                let maxw = if self.rng.chance(self.long_line_pct as u64, 100) { self.rng.range(12, 45) } else { 3 };
                 let w = self.words(multibyte, maxw);
                 let indent = *self.rng.pick(&["", "", "  ", "    "]);
                 format!("{}{} {}", indent, tok, w).trim_end().to_string()
@@ -362,6 +370,7 @@ impl<'a> Gen<'a> {
     }
 
     pub fn section(&mut self, p: &GenParams, kind: SectionKind, section: usize) {
+        self.long_line_pct = p.long_line_pct;
         let start = self.lines.len();
         self.section_inner(p, kind, section);
         if p.no_index_lines {
@@ -648,6 +657,7 @@ pub fn random_params(rng: &mut Rng, pivot: usize) -> GenParams {
         no_index_lines: rng.chance(1, 8),
         no_prefix: rng.chance(1, 10),
         line_number_class: 0,
+        long_line_pct: *rng.pick(&[0u8, 8, 8, 8, 50, 100]),
     }
 }
 
@@ -727,6 +737,10 @@ pub fn random_delta_opts(rng: &mut Rng) -> DeltaOpts {
     }
     if rng.chance(1, 12) {
         push("--relative-paths");
+    }
+    if side_by_side && rng.chance(1, 3) {
+        push("--wrap-max-lines");
+        push(*rng.pick(&["0", "1", "5", "unlimited"]));
     }
     if rng.chance(1, 12) {
         push("--line-fill-method");
